@@ -33,6 +33,7 @@ RULE += '; an instance is compared both ways with its counterpart in every other
 RULE += '; many other specialisations of the generic class may come and go before the same specialisation is asked for again'
 RULE += '; an instance with a MISSING attribute is compared with one that has a value there'
 RULE += '; nested mutation also through mapping values; a class with bounded type variables (enumerated)'
+RULE += "; plain assignment to attributes that hold MISSING; aliases that spell their parameter like the class's type parameter"
 LEVEL_TEXT = (
     "Invariant checking over generated histories: a deep-frozen snapshot of the instance must be unchanged after every "
     "attempt; updated() is compared attribute-by-attribute with the conformance oracle's stored form; equality is "
@@ -751,6 +752,8 @@ def strategy(tier):
             if args.get(f"a{i}") is None and alt is not None:
                 val = {"int": V_("int", x=3), "str": V_("str", x="s"), "seq": V_("list", items=ints(1, 2))}[alt["t"]]
                 script.append({"o": "eq", "other": "diff1", "attr": i, "val": val})
+                # an attribute that holds MISSING is assigned, not "still to be assigned": plain assignment is rejected too
+                script.append({"o": "setattr", "attr": i, "val": val, "unknown": False})
         return {"cls": {"generic": False, "targ": None, "attrs": attrs}, "args": args, "script": script}
 
     return st.one_of(cases(), cases(), cases(), nested_cases(), twin_cases(), history_cases(), missing_cases())
